@@ -264,9 +264,11 @@ theorem f2i_is_real_order (a b : I64) :
 −2.0 is −2 -/
 example : scaled 0x0000000000000001#64 = 1 := by decide
 example : expo 0x3ff0000000000000#64 = 1023 ∧ mant 0x3ff0000000000000#64 = 0 := by decide
+set_option exponentiation.threshold 2000 in
 example : scaled 0x3ff0000000000000#64 = 2 ^ 52 * 2 ^ 1022 := by
   have h : (0x3ff0000000000000#64).msb = false := by decide
   simp [scaled, mag, h]
+set_option exponentiation.threshold 2000 in
 example : scaled 0xc000000000000000#64 = -(2 ^ 52 * 2 ^ 1023) := by
   have h : (0xc000000000000000#64).msb = true := by decide
   simp [scaled, mag, h]
